@@ -77,7 +77,8 @@ CloseTo(y, t) == SLe(SAbs(SSub(SMul(y, DT), ExactNum(t))), SMul(TolQ, SAbs(DT)))
 C15_Proportional == IsMap => CloseTo(T.y, I2(T.t)) /\ CloseTo(T.y2, I2(T.t2))
 C15_EndpointsMap == IsMap => T.at_d0 = 1 /\ T.at_d1 = 1
 DirSign == (IF TLt(D0, D1) THEN 1 ELSE -1) * (SCmp(T.r1, T.r0))
-C15_StrictlyMonotone == (IsMap /\ TLt(I2(T.t), I2(T.t2))) => SCmp(T.y2, T.y) = DirSign
+\* (T.cmp is the exact comparison of the two floats; the x 1e9 projection is too coarse for instants 1 ms apart)
+C15_StrictlyMonotone == (IsMap /\ TLt(I2(T.t), I2(T.t2))) => T.cmp = DirSign
 \* invert returns the original instant to within a millisecond (instants inside the domain)
 C15_InvertWithin1ms == (IsMap /\ T.inside = 1 /\ SCmp(T.r1, T.r0) # 0) =>
     LET d == Diff(I2(T.inv), I2(T.t)) IN d \in {<<0, 0>>, <<0, 1>>, <<-1, DAYMS - 1>>}
